@@ -27,6 +27,7 @@ inductive AOp where
 def parseAOp (s : String) : Option AOp :=
   match s.splitOn ":" with
   | ["nop"] => some .nop
+  | ["nop", _] => some .nop
   | ["sfn", i, n] => i.toNat?.map (AOp.sfn · n)
   | ["alf", u, _, n] => u.toNat?.map (fun u => AOp.edit (.addLocalFunc u []) (if n = "-" then none else some n))
   | _ => (parseEOp s).map (AOp.edit · none)
